@@ -241,6 +241,26 @@ def concretize(model, nondets, literals):
             if t != 0 and t in strs:
                 strs[c] = " " + strs[t] + " "
 
+    # distinct codes must stay distinct strings: two texts with the same trimmed form differ in
+    # their surrounding white space
+    seen_s = {}
+    for c in sorted(strs):
+        st = strs[c]
+        if c in code2lit or c in forced:
+            seen_s.setdefault(st, c)
+            continue
+        k = 0
+        while st in seen_s and seen_s[st] != c:
+            k += 1
+            st = strs[c] + " " * k if strs[c].strip(" ") != "" else " " * (len(strs[c]) + k)
+        if st != strs[c]:
+            # only safe when trailing blanks do not change what the model says about the string
+            if c in trim and trim[c] != c:
+                strs[c] = st
+            else:
+                info["problems"].append("two codes concretise to the same string %r" % strs[c])
+        seen_s.setdefault(strs[c], c)
+
     values = {}
     for n, k in nondets.items():
         if n not in model:
